@@ -82,4 +82,17 @@ theorem value_eq (s : Fam Cell) (h : Nat) : value s h = mValue cfg cellMon s h :
 theorem num_pos : 0 < cfg.num := by decide
 end Summer
 
+/-- the reference after a run is the fold of `refStep` over the history -/
+theorem Adder.ref_fold (es : List Adder.AEv) : ∀ (s s' : Fam Int) (r r' : Nat → Option Int),
+    Adder.run s r es = some (s', r') → r' = es.foldl Adder.refStep r := by
+  induction es with
+  | nil => intro s s' r r' h; cases h; rfl
+  | cons e es ih =>
+    intro s s' r r' h
+    simp only [Adder.run] at h
+    cases h1 : Adder.step s e with
+    | none => rw [h1] at h; cases h
+    | some s1 => rw [h1] at h; exact ih _ _ _ _ h
+
+
 end Babylon.Counter
